@@ -871,4 +871,69 @@ def run_c20(P, C):
     move_ops(P, C)
     ts3(P, C)
     ts5(P, C)
+    ts4c(P, C)
     return n2
+
+
+def ts4c(P, C):
+    """character arrays of the auxiliary keys: clear() releases strlen+1 bytes, so every allocate<char>(N) stored into aux must end up
+    holding a string of exactly N-1 characters: a copy of N bytes from a source whose N is strlen(source)+1 / size()+1, or a terminator
+    stored at index N-1."""
+    C.rule("TS-4c", "every allocate<char>(N) for an auxiliary key or value is filled so that strlen == N-1 (terminator at index N-1 on every "
+           "path), because clear() releases strlen+1 bytes and an allocator must be given back the size it was asked for", floor=6)
+    n = 0
+    for f in P.functions.values():
+        if f.unit != "driver" or f.cls != CLS:
+            continue
+        for i in f.walk():
+            ap = assign_parts(f, i)
+            if not ap or ap[1] is None:
+                continue
+            rhs = f.strip(ap[1])
+            cal = f.nodes[rhs].get("callee")
+            if not cal or cal["name"] != "allocate" or cal.get("targs") != ["char"]:
+                continue
+            tgt = f.render(ap[0]).replace("this->", "")
+            N = core.poly(f, f.args(rhs)[0])
+            # aliases of the target: `A = tgt` (e.g. new_aux[naux][0] = new_key)
+            names = {tgt}
+            for j in f.walk():
+                ap2 = assign_parts(f, j)
+                if ap2 and ap2[1] is not None and f.render(ap2[1]).replace("this->", "") in names:
+                    names.add(f.render(ap2[0]).replace("this->", ""))
+            ok_paths = []
+            texts = []
+            for j in f.walk():
+                ap2 = assign_parts(f, j)
+                if ap2 and ap2[1] is not None and (f.nodes[f.strip(ap2[1])].get("cv") == 0 or f.nodes[f.strip(ap2[1])].get("v") == 0):
+                    l = f.strip(ap2[0])
+                    lt = f.render(l).replace("this->", "")
+                    idx = None
+                    if f.k(l) == "ArraySubscriptExpr" and f.render(f.nodes[l]["ch"][0]).replace("this->", "") in names:
+                        idx = core.poly(f, f.nodes[l]["ch"][1])
+                    elif f.k(l) == "UnaryOperator" and f.nodes[l]["op"] == "*":
+                        inner = f.strip(f.ch(l)[0])
+                        p = core.poly(f, inner, atomize=lambda ff, x: "BASE" if ff.render(x).replace("this->", "") in names else None)
+                        if ("BASE",) in p.t:
+                            idx = p - core.Poly.atom("BASE")
+                    if idx is not None:
+                        texts.append((j, idx))
+            copies = []
+            for j, cal2 in f.calls():
+                if cal2 and cal2["name"] == "copy" and cal2["qname"].startswith("std::"):
+                    a = f.args(j)
+                    if f.render(a[2]).replace("this->", "") in names:
+                        src0 = f.render(a[0])
+                        ln = core.poly(f, a[1], atomize=lambda ff, x: "SRC" if ff.render(x) == src0 else None) - core.Poly.atom("SRC")
+                        copies.append((j, src0, ln))
+            # classification per allocation: all terminator stores must be at N-1; or a copy of exactly N bytes where N = strlen(src)+1
+            bad = [(j, idx) for (j, idx) in texts if idx != N - core.Poly.const(1)]
+            good_term = [(j, idx) for (j, idx) in texts if idx == N - core.Poly.const(1)]
+            full_copy = [c for c in copies if c[2] == N]
+            ok = not bad and (bool(good_term) or bool(full_copy))
+            n += 1
+            C.ob("TS-4c", fshort(f), "chars:%s#%d" % (tgt, n), ok, f.loc(i),
+                 "allocate<char>(%r) for %s: terminator stored at %s; full-length copies: %d" %
+                 (N, tgt, [repr(idx) for (_j, idx) in texts] or "-", len(full_copy)) +
+                 ("" if ok else " — on some path the string is shorter than the allocation, so clear() hands the allocator a smaller size than it was asked for"))
+    return n
